@@ -320,3 +320,131 @@ Theorem month_names_any_case :
   forallb (fun m => forallb (fun nm => match name_to_month nm with Some m' => m =? m' | None => false end)
                             (name_variants m)) all_months = true.
 Proof. vm_compute. reflexivity. Qed.
+
+(* ---------- str(time) with a fraction: read back for EVERY valid time ---------- *)
+Open Scope char_scope.
+Definition no_sep (a : list ascii) : bool := forallb (fun c => negb (ch_eqb c "." || ch_eqb c ",")) a.
+
+Lemma split_frac_aux_app a : forall cur ds, no_sep a = true ->
+  split_frac_aux (a ++ "." :: ds) cur = (rev cur ++ a, Some ds).
+Proof.
+  induction a as [|c a IH]; intros cur ds H; simpl.
+  - now rewrite app_nil_r.
+  - simpl in H. apply andb_true_iff in H as [H1 H2]. apply negb_true_iff in H1. rewrite H1.
+    rewrite IH by exact H2. simpl. now rewrite <- app_assoc.
+Qed.
+
+Lemma split_frac_app a ds : no_sep a = true -> split_frac (a ++ "." :: ds) = (a, Some ds).
+Proof. intros H. unfold split_frac. now rewrite split_frac_aux_app. Qed.
+
+Lemma digit_char_facts d : (0 <= d <= 9)%Z ->
+  is_digit (digit_char d) = true /\ is_space (digit_char d) = false /\ digit_val (digit_char d) = d.
+Proof.
+  intros H.
+  assert (d = 0 \/ d = 1 \/ d = 2 \/ d = 3 \/ d = 4 \/ d = 5 \/ d = 6 \/ d = 7 \/ d = 8 \/ d = 9)%Z as C by lia.
+  destruct C as [->|[->|[->|[->|[->|[->|[->|[->|[->| ->]]]]]]]]]; vm_compute; auto.
+Qed.
+
+Lemma dec_fixed_digits w : forall n, (0 <= n)%Z -> all_digits (dec_fixed w n) = true.
+Proof.
+  induction w as [|w IH]; intros n Hn; [reflexivity|]. cbn [dec_fixed]. unfold all_digits in *.
+  rewrite forallb_app. rewrite IH by (apply Z.div_pos; lia). cbn [forallb andb].
+  destruct (digit_char_facts (n mod 10)) as [D _]; [lia|]. now rewrite D.
+Qed.
+
+Lemma dec_fixed_len w n : List.length (dec_fixed w n) = w.
+Proof. revert n. induction w as [|w IH]; intros n; [reflexivity|]. cbn [dec_fixed]. rewrite app_length, IH. simpl. lia. Qed.
+
+(* strip leaves a text alone whose first and last characters are not blank *)
+Lemma strip_id c m z : is_space c = false -> is_space z = false -> strip (c :: m ++ [z]) = c :: m ++ [z].
+Proof.
+  intros Hc Hz. unfold strip. cbn [lstrip]. rewrite Hc.
+  assert (R1 : rev (c :: m ++ [z]) = z :: rev m ++ [c]).
+  { cbn [rev]. rewrite rev_app_distr. reflexivity. }
+  rewrite R1. cbn [lstrip]. rewrite Hz.
+  cbn [rev]. rewrite rev_app_distr, rev_involutive. reflexivity.
+Qed.
+
+(* the whole-second part: everything the parser needs to know about HH:MM:SS, for all 86 400
+   values (finite sweep) *)
+Definition render_hms (h m s : Z) : list ascii :=
+  dec_fixed 2 h ++ [":"] ++ dec_fixed 2 m ++ [":"] ++ dec_fixed 2 s.
+Definition hms_ok (t : list Z) : bool :=
+  match t with
+  | [h; m; s; _] =>
+      let a := render_hms h m s in
+      match a with
+      | c :: _ => negb (is_space c) && negb (ch_eqb c "T") &&
+                  no_sep a &&
+                  match split_char ":" a with
+                  | [x; y; z] => field_ok true x && field_ok true y && field_ok true z &&
+                                 (num_of x 0 =? h)%Z && (num_of y 0 =? m)%Z && (num_of z 0 =? s)%Z
+                  | _ => false
+                  end
+      | [] => false
+      end
+  | _ => false
+  end.
+Lemma hms_sweep : forallb hms_ok all_hms = true.
+Proof. vm_compute. reflexivity. Qed.
+
+Lemma iso_core_three main ds hh mm ss :
+  split_char ":" main = [hh; mm; ss] ->
+  field_ok true hh = true -> field_ok true mm = true -> field_ok true ss = true ->
+  all_digits ds = true -> ds <> [] ->
+  iso_core main (Some ds) = mk_time (num_of hh 0) (num_of mm 0) (num_of ss 0) (frac_us ds).
+Proof.
+  intros Hs H1 H2 H3 Hd Hn. unfold iso_core. cbn [frac_ok_iso frac_val]. rewrite Hd.
+  assert (Nat.eqb (List.length ds) 0 = false) as -> by (destruct ds; [congruence|reflexivity]).
+  cbn [negb andb]. rewrite Hs, H1, H2, H3. reflexivity.
+Qed.
+
+Theorem time_string_roundtrip_full h m s u : valid_time [h; m; s; u] = true ->
+  parse_time_str (render_time [h; m; s; u]) = Some [h; m; s; u].
+Proof.
+  intros V. destruct (u =? 0)%Z eqn:U.
+  - apply Z.eqb_eq in U. subst u. now apply time_string_roundtrip.
+  - pose proof V as V'. unfold valid_time, in_range in V'.
+    assert (Hu : (0 < u <= 999999)%Z) by lia.
+    (* facts about the whole-second part, from the sweep *)
+    pose proof hms_sweep as S. rewrite forallb_forall in S.
+    assert (I : In [h; m; s; 0%Z] all_hms).
+    { unfold all_hms. apply in_flat_map. exists h. split; [apply in_zrange; lia|].
+      apply in_flat_map. exists m. split; [apply in_zrange; lia|].
+      apply (in_map (fun s0 => [h; m; s0; 0%Z])). apply in_zrange. lia. }
+    specialize (S _ I). unfold hms_ok in S.
+    set (a := render_hms h m s) in *.
+    destruct a as [|c a'] eqn:Ea; [discriminate|].
+    apply andb_true_iff in S as [S SD]. apply andb_true_iff in S as [S SC].
+    apply andb_true_iff in S as [SA SB].
+    destruct (split_char ":" (c :: a')) as [|x [|y [|z [|? ?]]]] eqn:Sp; try discriminate.
+    apply andb_true_iff in SD as [SD Es]. apply andb_true_iff in SD as [SD Em].
+    apply andb_true_iff in SD as [SD Eh]. apply andb_true_iff in SD as [SD Fz].
+    apply andb_true_iff in SD as [Fx Fy].
+    apply negb_true_iff in SA. apply negb_true_iff in SB.
+    apply Z.eqb_eq in Eh, Em, Es.
+    (* the rendering *)
+    assert (R : render_time [h; m; s; u] = (c :: a') ++ "." :: dec_fixed 6 u).
+    { unfold render_time. rewrite U. rewrite <- Ea. unfold a, render_hms. rewrite <- !app_assoc. reflexivity. }
+    (* last character *)
+    assert (L : dec_fixed 6 u = dec_fixed 5 (u / 10) ++ [digit_char (u mod 10)]) by reflexivity.
+    destruct (digit_char_facts (u mod 10)) as (_ & Zs & _); [lia|].
+    unfold parse_time_str. rewrite R.
+    assert (St : strip ((c :: a') ++ "." :: dec_fixed 6 u) = (c :: a') ++ "." :: dec_fixed 6 u).
+    { rewrite L. change ((c :: a') ++ "." :: dec_fixed 5 (u / 10) ++ [digit_char (u mod 10)])
+        with (c :: (a' ++ "." :: dec_fixed 5 (u / 10) ++ [digit_char (u mod 10)])).
+      replace (a' ++ "." :: dec_fixed 5 (u / 10) ++ [digit_char (u mod 10)])
+        with ((a' ++ "." :: dec_fixed 5 (u / 10)) ++ [digit_char (u mod 10)])
+        by (rewrite <- app_assoc; reflexivity).
+      apply strip_id; assumption. }
+    rewrite St. unfold parse_time_iso.
+    assert (Dt : drop_t ((c :: a') ++ "." :: dec_fixed 6 u) = (c :: a') ++ "." :: dec_fixed 6 u).
+    { cbn [app drop_t]. destruct c as [b0 b1 b2 b3 b4 b5 b6 b7].
+      destruct b0, b1, b2, b3, b4, b5, b6, b7; try reflexivity. vm_compute in SB. discriminate SB. }
+    rewrite Dt, split_frac_app by exact SC.
+    rewrite (iso_core_three (c :: a') (dec_fixed 6 u) x y z Sp Fx Fy Fz).
+    + rewrite Eh, Em, Es, frac_us_dec_fixed by lia.
+      unfold mk_time. now rewrite V.
+    + apply dec_fixed_digits. lia.
+    + intros E. pose proof (dec_fixed_len 6 u) as Ln. rewrite E in Ln. discriminate Ln.
+Qed.
